@@ -359,6 +359,7 @@ func (c *Cache) writeDump(w io.Writer) (int, error) {
 	gw.Name = dumpHeader
 
 	block := new(CacheDumpBlock)
+	blockLen := 0 // approximate length of the marshaled block
 	writeBlock := func() error {
 		b, err := proto.Marshal(block)
 		if err != nil {
@@ -378,6 +379,7 @@ func (c *Cache) writeDump(w io.Writer) (int, error) {
 
 		en += len(block.GetEntries())
 		block.Reset()
+		blockLen = 0
 		return nil
 	}
 
@@ -398,9 +400,11 @@ func (c *Cache) writeDump(w io.Writer) (int, error) {
 			Msg:                 msg,
 		}
 		block.Entries = append(block.Entries, e)
+		blockLen += len(e.Key) + len(e.Msg)
 
 		// Block is big enough for a write operation.
-		if len(block.Entries) >= dumpBlockSize {
+		// Note: readDump refuses blocks that are longer than dumpMaximumBlockLength.
+		if len(block.Entries) >= dumpBlockSize || blockLen >= dumpMaximumBlockLength/2 {
 			return writeBlock()
 		}
 		return nil
